@@ -45,7 +45,7 @@ func main() {
 	} else {
 		plan = []chainops.Search{
 			{World: "small", Alpha: "staking", Depth: 4}, {World: "dust", Alpha: "staking", Depth: 4}, {World: "small", Alpha: "full", Depth: 3},
-			{World: "small/p1", Alpha: "staking", Depth: 4}, {World: "nearmax", Alpha: "staking", Depth: 3}, {World: "small", Alpha: "staking", Depth: 5},
+			{World: "small/p1", Alpha: "staking", Depth: 4}, {World: "small", Alpha: "staking", Depth: 5}, // the near-2^64 genesis is C04's quantifier, not C12's: minting beyond 2^64 cannot succeed by arithmetic
 		}
 	}
 	chainops.RunPlan(r, "C12", plan)
